@@ -1077,6 +1077,14 @@ class Interp:
         from . import loops
         return loops.dict_comprehension(self, e)
 
+    def e_SetComp(self, e):
+        # {k for ... if cond}: the set is the domain of the dict comprehension {k: True for ... if cond}
+        from . import loops
+        d = ast.copy_location(ast.DictComp(key=e.elt, value=ast.copy_location(ast.Constant(True), e), generators=e.generators), e)
+        m = loops.dict_comprehension(self, ast.fix_missing_locations(d))
+        self.heap[m.oid]["pyset"] = True
+        return m
+
     def e_ListComp(self, e):
         from . import loops
         return loops.list_comprehension(self, e)
